@@ -83,6 +83,10 @@ class Tr:
         for f in fns:
             if f.selfk: self.by_name.setdefault(f.name, []).append(f)
         self.variants = dict(EXTERN_VARIANTS)
+        self.statics = dict(EXTERN_STATICS); self.statics.update(cfg.get("extern_statics", {}))
+        self.ext_types = dict(cfg.get("extern_types", {}))
+        self.tuple_structs = {n for n, fs in mod.structs.items() if fs and all(fn_.isdigit() for fn_, _ in fs)}
+        self.hashmap = bool(cfg.get("extern_statics"))      # targets with the HashMap / i32 primitives of Model/RustBraid.lean
         for en, vs in mod.enums.items():
             for v, _ in vs: self.variants[v] = f"{en}.{v}"
         self.body = {}
@@ -95,6 +99,10 @@ class Tr:
         if t in BASE_TYPES: return BASE_TYPES[t]
         if t == "Self": return f.ty
         if t in self.mod.structs or t in self.mod.enums: return t
+        if t in self.ext_types: return self.ext_types[t]
+        if self.hashmap and t.startswith("&"): return self.lean_ty(t[1:], f)
+        m = re.fullmatch(r"\[(.*)\]", t)
+        if self.hashmap and m and ";" not in t: return f"(List {self.lean_ty(m.group(1), f)})"
         for tp, b in f.bounds:
             if tp == t:
                 m = re.fullmatch(r"IntoIterator<Item=(.*)>", b.replace(" ", ""))
@@ -147,12 +155,12 @@ class Tr:
                 if k == "macro" and (n.name in ASSERTS or n.name in PANICS): e = True
                 elif k == "index": e = True
                 elif k in ("loop", "while"): e = fu = True
-                elif k == "mcall" and n.name in ("unwrap", "expect", "push", "pop", "insert"): e = True
+                elif k == "mcall" and n.name in ("unwrap", "expect", "push", "pop", "insert", "extend"): e = True
                 elif k == "bin" and n.op == "-" and not (is_i32_cast(n.l) or is_i32_cast(n.r)): e = True
                 elif k == "assign": e = True
                 elif k == "let" and n.mut: e = True
                 elif k == "for": e = True
-                elif k == "call" and tuple(n.path) in EXTERN_STATICS and EXTERN_STATICS[tuple(n.path)][1]: e = True
+                elif k == "call" and tuple(n.path) in self.statics and self.statics[tuple(n.path)][1]: e = True
             self.eff[id(f)], self.fuel[id(f)] = e, fu
         changed = True
         while changed:
@@ -191,7 +199,7 @@ class Tr:
         self.emitted.append(f)
 
     def translate_fn(self, f):
-        if f.trait: raise U("trait impl")
+        if f.trait and (f.ty, f.name) not in self.cfg.get("traits", []): raise U("trait impl")
         body = self.parse_body(f)
         self.cur = f
         self.closures, self.loops, self.ntmp = {}, [], 0
@@ -339,7 +347,8 @@ class Tr:
                     if len(e.args) != 2: raise U("assert_eq! arguments")
                     c = f"({self.ex(e.args[0])} == {self.ex(e.args[1])})"
                 else:
-                    if len(e.args) != 1: raise U("assert! arguments")
+                    if len(e.args) == 2 and self.hashmap and e.args[1].kind == "str": pass      # the message
+                    elif len(e.args) != 1: raise U("assert! arguments")
                     c = self.ex(e.args[0])
                 return [f"{ind}Res.assert {c}"]
             if e.name in PANICS: return [ind + "Res.panic"]
@@ -421,6 +430,11 @@ class Tr:
             self.closures[st.name] = ("fun", "←" in body)
             return [f"{ind}let {ident(st.name)} := {body}"]
         ty = ""
+        if st.ty is not None and self.hashmap and re.fullmatch(r"HashMap<.*>", st.ty.replace(" ", "")):
+            if not (init.kind == "mcall" and init.name == "collect" and not init.args and st.pat is None and st.els is None and not st.mut):
+                raise U("`HashMap` binding that is not `let m: HashMap<..> = it.collect()`")
+            self.locals.add(st.name)
+            return [f"{ind}let {ident(st.name)} := (Lk.HashMap.from_iter {self.ex(init.recv)})"]
         if st.ty is not None:
             t = self.lean_ty(st.ty, self.cur)
             ty = " : " + t
@@ -503,6 +517,8 @@ class Tr:
                 return self.store(e.recv, f"(List.dropLast {self.ex(e.recv)})", ind)
             if nm == "insert" and len(e.args) == 1:
                 return self.store(e.recv, f"(({self.ex(e.recv)}).insert {self.ex(e.args[0])})", ind)
+            if nm == "extend" and len(e.args) == 1 and self.hashmap:
+                return self.store(e.recv, f"({self.ex(e.recv)} ++ {self.ex(e.args[0])})", ind)
             return None
         g = users[0]
         for g_ in users: self.dep(g_)
@@ -604,7 +620,9 @@ class Tr:
         if k == "cast":
             x = self.ex(e.e)
             if e.ty in ("i32", "i64", "isize"): return f"(Int.ofNat {x})"
-            if e.ty in ("usize", "u64"): return x
+            if e.ty in ("usize", "u64"):
+                if self.hashmap and x.startswith("(Lk.iabs "): return f"(Int.toNat {x})"
+                return x
             raise U(f"cast to {e.ty}")
         if k == "bin": return self.bin(e)
         if k == "field":
@@ -684,6 +702,9 @@ class Tr:
         if len(p) == 1:
             nm = p[0]
             if nm == "Some" and len(e.args) == 1: return f"(some {self.ex(e.args[0])})"
+            ts_ = self.cur.ty if nm == "Self" else nm
+            if ts_ in self.tuple_structs and len(e.args) == len(self.mod.structs[ts_]):
+                return "(" + " ".join([f"{ts_}.mk"] + [self.ex(a) for a in e.args]) + ")"
             if nm in self.closures:
                 kind, m = self.closures[nm]
                 if kind != "fun": raise U(f"mutating closure `{nm}` called inside an expression")
@@ -694,8 +715,8 @@ class Tr:
                 return "(" + " ".join([ident(nm)] + [self.ex(a) for a in e.args]) + ")"
             raise U(f"call of `{nm}`")
         if len(p) == 2:
-            if tuple(p) in EXTERN_STATICS:
-                lf, m = EXTERN_STATICS[tuple(p)]
+            if tuple(p) in self.statics:
+                lf, m = self.statics[tuple(p)]
                 t = " ".join([lf] + [self.ex(a) for a in e.args])
                 return f"(← {t})" if m else (f"({t})" if e.args else lf)
             ty = self.cur.ty if p[0] == "Self" else p[0]
@@ -709,6 +730,11 @@ class Tr:
     def mcall(self, e):
         nm, n = e.name, len(e.args)
         users = self.by_name.get(nm, [])
+        r_ = e.recv
+        while r_.kind == "paren": r_ = r_.e
+        if self.hashmap and r_.kind == "field" and r_.name.isdigit() and r_.e.kind == "path" and r_.e.segs == ["self"] and \
+                self.cur.ty in self.tuple_structs and dict(self.mod.structs[self.cur.ty]).get(r_.name) in ("i32", "usize"):
+            users = []                           # a method of the primitive type of that field, not of a translated type
         if users:
             for g in users: self.dep(g)
             g = users[0]
@@ -729,6 +755,16 @@ class Tr:
         if nm == "is_some" and n == 0: return f"(Option.isSome {x})"
         if nm == "is_none" and n == 0: return f"(Option.isNone {x})"
         if nm == "is_positive" and n == 0: return f"(({x}).is_positive)"
+        if self.hashmap:
+            if nm == "is_zero" and n == 0: return f"({x} == 0)"
+            if nm == "abs" and n == 0: return f"(Lk.iabs {x})"
+            if nm == "sign" and n == 0: return f"(Lk.isign {x})"
+            if nm == "rev" and n == 0: return f"(List.reverse {x})"
+            if nm == "extend" and n == 1: raise U("`.extend` inside an expression")
+            if nm == "all" and n == 1 and e.args[0].kind == "closure":
+                f_ = self.closure(e.args[0])
+                if "←" in f_: raise U("`.all` with a closure that may panic")
+                return f"(List.all {x} {f_})"
         if nm == "unwrap_or" and n == 1: return f"(Option.getD {x} {self.ex(e.args[0])})"
         if nm in ("contains", "get") and n == 1: return f"(({x}).{nm} {self.ex(e.args[0])})"
         if nm in ("filter", "map", "any") and n == 1:
@@ -771,7 +807,7 @@ def generate(texts, src_label, cfg, rmod):
         only, excl = cfg.get("only", {}), set(cfg.get("exclude", []))
         fns, notes = [], []
         for f in mod.fns:
-            if f.trait or f.ty is None: continue
+            if f.ty is None or (f.trait and (f.ty, f.name) not in cfg.get("traits", [])): continue
             if f.ty in only and f.name not in only[f.ty]: continue
             if (f.ty, f.name) in excl:
                 notes.append(f"{f.rust_name}: excluded by the target (see the blurb)"); continue
@@ -792,7 +828,7 @@ def generate(texts, src_label, cfg, rmod):
             lines = [f"/-- `struct {name}` -/", f"structure {name} where"]
             for fn_, ft in mod.structs[name]:
                 t = tr.lean_ty(ft, dummy)
-                lines.append(f"  {fn_}_ : {t}   -- {ft}")
+                lines.append(f"  {'v' if fn_.isdigit() else ''}{fn_}_ : {t}   -- {ft}")
             lines.append("deriving DecidableEq, Repr, Inhabited")
             parts.append("\n".join(lines))
         skipped = []
